@@ -106,6 +106,46 @@ def run(ctx):
              bucket=lambda c: "rw threads=%d" % c[0], timeout=1800, search=(reschedule, ctx.scale(1500, 20000)))
 
 
+    run_mix(ctx)
+
+
+MKINDS = ["spin_mutex", "queuing_mutex", "mutex", "speculative_spin_mutex", "spin_rw_mutex", "queuing_rw_mutex", "rw_mutex", "speculative_spin_rw_mutex"]
+
+
+def mdesc(c):
+    return "%s: %d threads x %d acquisitions (blocking / try, reused scoped_lock objects, two mutexes%s), seed %d" % (
+        MKINDS[c[0]], c[1], c[2], ", reader/writer, upgrade, downgrade" if c[0] >= 4 else "", c[3])
+
+
+def mix_oracle(c, toks):
+    if not toks or toks[0].startswith("CRASH") or toks[-1] == "HANG":
+        return ("mutex-lost-handoff", mdesc(c) + ": an acquirer never gets the lock although all holders released (hang), or the run crashed")
+    d = {toks[i]: int(toks[i + 1]) for i in range(0, len(toks) - 1, 2)}
+    if d.get("EXCL"):
+        return ("mutex-exclusion", "%s: %d times a writer was inside together with another holder" % (mdesc(c), d["EXCL"]))
+    if d.get("LOST"):
+        return ("mutex-lost-update", "%s: %d updates of the plain counter protected by the lock were lost" % (mdesc(c), d["LOST"]))
+    return None
+
+
+def run_mix(ctx):
+    lib, err = ctx.build_lib("tbb")
+    if err:
+        return ctx.broken("libtbb build", err)
+    exe, err = ctx.build_driver("drv_mutex", libs=[lib], opt="-O1")
+    if err:
+        return ctx.broken("drv_mutex build", err)
+    rng = ctx.rng
+    cases = [[k, rng.choice([2, 3, 4, 8]), rng.choice([2000, 6000]), ctx.seed * 1000 + i * 8 + k] for i in range(ctx.scale(2, 40)) for k in range(8)]
+    ctx.rules.append("mutex-mix (oracle only): all eight mutex types, 2-8 real threads, each with ONE scoped_lock object used again and again on two mutexes, blocking and try acquisitions mixed, "
+                     "reader/writer with upgrade_to_writer / downgrade_to_reader; predicate = never a writer together with another holder, no lost update of a plain counter, every acquirer gets the lock (watchdog)")
+    vlib.oracle_tie(ctx, "mutex-mix", exe, [], cases, mix_oracle, describe=mdesc, bucket=lambda c: "mutex-mix %s" % MKINDS[c[0]], timeout=900)
+
+
 def replay(ctx, rep):
+    if rep.get("tie") == "mutex-mix":
+        lib, err = ctx.build_lib("tbb")
+        exe, err = ctx.build_driver("drv_mutex", libs=[lib], opt="-O1")
+        return vlib.oracle_tie(ctx, "mutex-mix", exe, [], [rep["case"]], mix_oracle, describe=mdesc)
     exe, err = ctx.build_driver("drv_rw", extra=["-include", PRELUDE])
     diff_tie(ctx, rep.get("tie", "replay"), exe, [], "rw", [rep["case"]], oracle=oracle, describe=describe)
